@@ -1,4 +1,5 @@
 import LJT.Model.T81Enc
+import LJT.Model.ProgAC
 /-! The progressive Huffman *encoder* (src/jcphuff.c: `encode_mcu_DC_first`, `encode_mcu_AC_first`,
 `encode_mcu_DC_refine`, `encode_mcu_AC_refine`, `emit_eobrun`, `emit_restart`,
 `finish_pass_gather_phuff`) and the file layout around it (src/jcmarker.c, src/jcparam.c
@@ -15,15 +16,6 @@ inductive Ev
   | rst (n : Nat)
 deriving Repr
 
-/-- floor(log2 x) for x > 0 -/
-def ilog2 (x : Nat) : Nat := Nat.log2 x
-
-/-- `emit_eobrun`: the pending end-of-band run and the buffered correction bits -/
-def eobEvents (tbl eobrun : Nat) (be : List Nat) : List Ev :=
-  if eobrun == 0 then [] else
-  let nb := ilog2 eobrun
-  [Ev.sym false tbl (nb * 16)] ++ (if nb != 0 then [Ev.bits (eobrun % 2 ^ nb) nb] else []) ++ be.map (fun b => Ev.bits b 1)
-
 /-- zigzag-ordered coefficients of one block -/
 def blockZZ (coef : Nat → Nat → Nat → Nat → Int) (ci by_ bx : Nat) : List Int :=
   (List.range 64).map (fun k => coef ci by_ bx (Gen.naturalOrder.getD k 0))
@@ -31,9 +23,47 @@ def blockZZ (coef : Nat → Nat → Nat → Nat → Int) (ci by_ bx : Nat) : Lis
 /-- arithmetic shift right of an Int -/
 def asr (x : Int) (n : Nat) : Int := x / 2 ^ n
 
+/-- split a list into chunks of `n` (one chunk if `n = 0`) -/
+def chunks {α : Type} (n : Nat) (l : List α) : List (List α) :=
+  if n = 0 then [l] else
+  (List.range (ceilDiv l.length n)).map (fun i => (l.drop (i * n)).take n)
+
+def tagAC (tbl : Nat) : ProgAC.Ev → Ev
+  | .sym s => .sym false tbl s
+  | .bits v n => .bits v n
+
+/-- join the event lists of the restart intervals with RSTn markers -/
+def joinRst : Nat → List (List Ev) → List Ev
+  | _, [] => []
+  | _, [x] => x
+  | n, x :: y :: t => x ++ [Ev.rst (n % 8)] ++ joinRst (n + 1) (y :: t)
+
+/-- events of an AC scan (one component, one block per MCU, `encode_mcu_AC_first` /
+`encode_mcu_AC_refine`): every restart interval is coded by the pure functions of Model/ProgAC.lean
+starting from EOBRUN = 0 and ending with the flush of `emit_restart` / `finish_pass` -/
+def acScanEvents (f : Frame) (hmax vmax : Nat) (coef : Nat → Nat → Nat → Nat → Int)
+    (ci atbl ss se ah al ri : Nat) : List Ev :=
+  let c := f.comps.getD ci ⟨0, 1, 1, 0⟩
+  let mcusX := ceilDiv (ceilDiv (f.width * c.h) hmax) 8
+  let mcusY := ceilDiv (ceilDiv (f.height * c.v) vmax) 8
+  let band := fun (m : Nat) =>
+    let zzb := blockZZ coef ci (m / mcusX) (m % mcusX)
+    (List.range (se - ss + 1)).map (fun j => zzb.getD (ss + j) 0)
+  let blocks := (List.range (mcusX * mcusY)).map band
+  let one := fun (bs : List (List Int)) =>
+    if ah == 0 then
+      ProgAC.firstEv 0 (bs.map (fun b => b.map (fun (v : Int) =>
+        if v < 0 then - ((v.natAbs / 2 ^ al : Nat) : Int) else ((v.natAbs / 2 ^ al : Nat) : Int))))
+    else
+      ProgAC.refEv 0 [] (bs.map (fun b => b.map (fun (v : Int) => (v.natAbs / 2 ^ al, decide (v < 0)))))
+  joinRst 0 ((chunks ri blocks).map (fun bs => (one bs).map (tagAC atbl)))
+
 /-- events of one scan.  `scs`: (frame component index, dc table, ac table). -/
 def scanEvents (f : Frame) (hmax vmax : Nat) (coef : Nat → Nat → Nat → Nat → Int)
     (scs : List (Nat × Nat × Nat)) (ss se ah al ri : Nat) : List Ev := Id.run do
+  if ss != 0 then
+    let (ci, _, atbl) := scs.headD (0, 0, 0)
+    return acScanEvents f hmax vmax coef ci atbl ss se ah al ri
   let ns := scs.length
   let compOf := fun (i : Nat) => f.comps.getD i ⟨0, 1, 1, 0⟩
   let c0 := compOf (scs.headD (0, 0, 0)).1
@@ -41,123 +71,43 @@ def scanEvents (f : Frame) (hmax vmax : Nat) (coef : Nat → Nat → Nat → Nat
   let mcusX := if single then ceilDiv (ceilDiv (f.width * c0.h) hmax) 8 else ceilDiv f.width (8 * hmax)
   let mcusY := if single then ceilDiv (ceilDiv (f.height * c0.v) vmax) 8 else ceilDiv f.height (8 * vmax)
   let total := mcusX * mcusY
-  let acTbl := (scs.headD (0, 0, 0)).2.2
   let mut out : Array Ev := #[]
   let mut lastDC : Array Int := Array.replicate 4 0
-  let mut eobrun := 0
-  let mut be : List Nat := []          -- buffered correction bits (oldest first)
   let mut restartsToGo := ri
   let mut nextRst := 0
   for m in [0:total] do
     -- restart handling at the start of an MCU
     if ri != 0 && restartsToGo == 0 then
-      out := out ++ (eobEvents acTbl eobrun be).toArray
-      eobrun := 0; be := []
       out := out.push (Ev.rst nextRst)
       lastDC := Array.replicate 4 0
       restartsToGo := ri
       nextRst := (nextRst + 1) % 8
     let my := m / mcusX
     let mx := m % mcusX
-    if ss == 0 then
-      -- DC scan: all blocks of the MCU, with libjpeg's dummy-block rule
-      let mut prevDC : Int := 0
-      for i in [0:ns] do
-        let (ci, dtbl, _) := scs.getD i (0, 0, 0)
-        let c := compOf ci
-        let wb := ceilDiv (ceilDiv (f.width * c.h) hmax) 8
-        let hb := ceilDiv (ceilDiv (f.height * c.v) vmax) 8
-        let bh := if single then 1 else c.h
-        let bv := if single then 1 else c.v
-        for by_ in [0:bv] do
-          for bx in [0:bh] do
-            let real := decide (my * bv + by_ < hb) && decide (mx * bh + bx < wb)
-            let dc : Int := if real then coef ci (my * bv + by_) (mx * bh + bx) 0 else prevDC
-            prevDC := dc
-            if ah == 0 then
-              let t2 := asr dc al
-              let diff := t2 - lastDC.getD i 0
-              lastDC := lastDC.setIfInBounds i t2
-              let cat := LL.category diff
-              out := out.push (Ev.sym true dtbl cat.1)
-              if cat.2.2 != 0 then out := out.push (Ev.bits cat.2.1 cat.2.2)
-            else
-              out := out.push (Ev.bits ((asr dc al) % 2).toNat 1)
-    else
-      -- AC scan of a single component: one real block per MCU
-      let (ci, _, atbl) := scs.headD (0, 0, 0)
-      let zzb := blockZZ coef ci my mx
-      if ah == 0 then
-        -- first pass
-        let vals := (List.range (se - ss + 1)).map (fun j => zzb.getD (ss + j) 0)
-        let absv := vals.map (fun (v : Int) => v.natAbs / 2 ^ al)
-        if absv.any (· != 0) && eobrun > 0 then
-          out := out ++ (eobEvents atbl eobrun be).toArray
-          eobrun := 0; be := []
-        let mut r := 0
-        for j in [0:vals.length] do
-          let a := absv.getD j 0
-          if a == 0 then r := r + 1
+    -- DC scan: all blocks of the MCU, with libjpeg's dummy-block rule
+    let mut prevDC : Int := 0
+    for i in [0:ns] do
+      let (ci, dtbl, _) := scs.getD i (0, 0, 0)
+      let c := compOf ci
+      let wb := ceilDiv (ceilDiv (f.width * c.h) hmax) 8
+      let hb := ceilDiv (ceilDiv (f.height * c.v) vmax) 8
+      let bh := if single then 1 else c.h
+      let bv := if single then 1 else c.v
+      for by_ in [0:bv] do
+        for bx in [0:bh] do
+          let real := decide (my * bv + by_ < hb) && decide (mx * bh + bx < wb)
+          let dc : Int := if real then coef ci (my * bv + by_) (mx * bh + bx) 0 else prevDC
+          prevDC := dc
+          if ah == 0 then
+            let t2 := asr dc al
+            let diff := t2 - lastDC.getD i 0
+            lastDC := lastDC.setIfInBounds i t2
+            let cat := LL.category diff
+            out := out.push (Ev.sym true dtbl cat.1)
+            if cat.2.2 != 0 then out := out.push (Ev.bits cat.2.1 cat.2.2)
           else
-            while r > 15 do
-              out := out.push (Ev.sym false atbl 0xF0)
-              r := r - 16
-            let v := vals.getD j 0
-            let sv : Int := if v < 0 then - (a : Int) else (a : Int)
-            let cat := LL.category sv
-            out := out.push (Ev.sym false atbl (r * 16 + cat.1))
-            out := out.push (Ev.bits cat.2.1 cat.2.2)
-            r := 0
-        if r > 0 then
-          eobrun := eobrun + 1
-          if eobrun == 0x7FFF then
-            out := out ++ (eobEvents atbl eobrun be).toArray
-            eobrun := 0; be := []
-      else
-        -- refinement pass
-        let vals := (List.range (se - ss + 1)).map (fun j => zzb.getD (ss + j) 0)
-        let absv := vals.map (fun (v : Int) => v.natAbs / 2 ^ al)
-        -- EOB = index of the last newly-nonzero coefficient
-        let mut eobIdx := 0
-        for j in [0:absv.length] do
-          if absv.getD j 0 == 1 then eobIdx := j
-        let mut r := 0
-        let mut br : List Nat := []          -- correction bits collected in this block
-        let mut beLocal := be                 -- older correction bits still buffered (with the pending EOBRUN)
-        for j in [0:absv.length] do
-          let a := absv.getD j 0
-          if a == 0 then r := r + 1
-          else
-            -- required ZRLs, but not if they can be folded into EOB
-            while r > 15 && j ≤ eobIdx do
-              out := out ++ (eobEvents atbl eobrun beLocal).toArray
-              if eobrun > 0 then beLocal := []
-              eobrun := 0
-              out := out.push (Ev.sym false atbl 0xF0)
-              r := r - 16
-              out := out ++ (br.map (fun b => Ev.bits b 1)).toArray
-              br := []
-            if a > 1 then
-              br := br ++ [a % 2]
-            else
-              out := out ++ (eobEvents atbl eobrun beLocal).toArray
-              if eobrun > 0 then beLocal := []
-              eobrun := 0
-              out := out.push (Ev.sym false atbl (r * 16 + 1))
-              out := out.push (Ev.bits (if vals.getD j 0 < 0 then 0 else 1) 1)
-              out := out ++ (br.map (fun b => Ev.bits b 1)).toArray
-              br := []
-              r := 0
-        be := beLocal
-        if r > 0 || !br.isEmpty then
-          eobrun := eobrun + 1
-          be := be ++ br
-          if eobrun == 0x7FFF || be.length > 1000 - 64 + 1 then
-            out := out ++ (eobEvents atbl eobrun be).toArray
-            eobrun := 0; be := []
+            out := out.push (Ev.bits ((asr dc al) % 2).toNat 1)
     if ri != 0 then restartsToGo := restartsToGo - 1
-  -- finish_pass
-  out := out ++ (eobEvents acTbl eobrun be).toArray
   return out.toList
 
 /-- symbol counts of a scan for table (isDC, tbl): 257 entries -/
